@@ -182,6 +182,41 @@ def attachAll (excName excStr apiFile : String) : List Level → Option Metadata
     | none => none
     | some md => attachAll excName excStr apiFile ls (some md)
 
+/-! ## Nested wrappers: the exception as it travels (re-raise path) -/
+
+/-- What the error machinery looks at on an exception object in flight:
+`getattr(e, 'ag_error_metadata', None)` and `hasattr(e, 'ag_pass_through')`. -/
+structure ExcState where
+  md : Option Metadata
+  passThrough : Bool
+  deriving DecidableEq, Repr, Inhabited
+
+/-- `api._attach_error_metadata(e, f)` on the exception in flight (the `except` clause of one `converted_call`). -/
+def attachState (fullTb : List Frame) (s : ExcState) (excName excStr : String) (m : SourceMap) (apiFile : String) :
+    Option ExcState :=
+  if Gen.Errors.attachHonoursPassThrough && s.passThrough then some s
+  else (attach fullTb s.md excName excStr m apiFile).map fun md => { s with md := some md }
+
+/-- `convert().wrapper`: `if hasattr(e, 'ag_error_metadata'): raise e.ag_error_metadata.to_exception(e)` — a NEW
+exception object carrying the same metadata; `else: raise` — the same object. -/
+def wrapperRethrow (s : ExcState) : ExcState :=
+  match s.md with
+  | some md => { md := some md, passThrough := Gen.Errors.toExceptionSetsPassThrough }
+  | none => s
+
+/-- What happens to the exception on its way out, innermost first. -/
+inductive Event where
+  | attach (lv : Level)      -- the `except` clause of a `converted_call` whose callee was converted
+  | rethrow                  -- a `malt.convert` wrapper
+
+def runEvents (excName excStr apiFile : String) : List Event → ExcState → Option ExcState
+  | [], s => some s
+  | .attach lv :: es, s =>
+    match attachState lv.tb s excName excStr lv.map apiFile with
+    | none => none
+    | some s' => runEvents excName excStr apiFile es s'
+  | .rethrow :: es, s => runEvents excName excStr apiFile es (wrapperRethrow s)
+
 /-! ## The message -/
 
 def isWs (c : Char) : Bool := c == ' ' || c == '\t' || c == '\n' || c == '\r'
@@ -252,6 +287,20 @@ def createException (t : ExcType) : Created :=
   else match baseCreate t with
     | some c => c
     | none => .staging
+
+/-- The type of the exception a rewrite produces, as the next wrapper will see it:
+`MultilineMessageKeyError` is a class of malt's (`__name__ == "KeyError"`, own `__init__(message, original_key)`). -/
+def typeAfter (t : ExcType) : Created → ExcType
+  | .sameType => t
+  | .keyErrorSubclass => { name := "KeyError", userDefined := true, isMaltError := false, initIsExceptionInit := false,
+                           userInit := true, nearestBuiltin := "KeyError" }
+  | .staging => { name := Gen.Errors.fallbackError, userDefined := false, isMaltError := true, initIsExceptionInit := true,
+                  userInit := false, nearestBuiltin := "Exception" }
+
+/-- The type reaching the caller after `n+1` nested wrappers have each re-created the exception. -/
+def rewriteN (t : ExcType) : Nat → ExcType
+  | 0 => typeAfter t (createException t)
+  | n + 1 => let t' := rewriteN t n; typeAfter t' (createException t')
 
 /-- How CPython resolves `T.__init__` (a fact about the interpreter, checked on every class the harness uses):
 it is `Exception.__init__` exactly when no user class in the MRO defines one and the first builtin in
